@@ -42,7 +42,7 @@ func c09Tables() [][]kv {
 
 func (c c09) Run(ctx *core.Ctx) error {
 	var cases []json.RawMessage
-	loaders := []string{"default", "disk"}
+	loaders := []string{"default", "disk", "map4"}
 	if ctx.Tier == "thorough" {
 		loaders = []string{"default", "skiplist", "map4", "disk"}
 	}
